@@ -119,11 +119,17 @@ func ParseSimple(dsn string, target interface{}) error {
 		// If the value starts with a quotation mark consume more parts
 		// until the quotation is finished.
 		for _, quot := range quotations {
-			if !strings.Contains(part, "="+string(quot)) {
+			idx := strings.Index(part, "="+string(quot))
+			if idx < 0 {
 				continue
 			}
 
-			for part[len(part)-1] != quot {
+			// The value is terminated by a quotation mark other than
+			// the opening one.
+			for len(part) < idx+3 || part[len(part)-1] != quot {
+				if len(dsnS) == 0 {
+					return fmt.Errorf("dsn: unterminated quotation in DSN part: %q", part)
+				}
 				part = strings.Join([]string{part, dsnS[0]}, " ")
 				dsnS = dsnS[1:]
 			}
@@ -140,7 +146,7 @@ func ParseSimple(dsn string, target interface{}) error {
 		// Remove quotation from value
 		if value != "" {
 			for _, quot := range quotations {
-				if value[0] == quot && value[len(value)-1] == quot {
+				if len(value) >= 2 && value[0] == quot && value[len(value)-1] == quot {
 					value = value[1 : len(value)-1]
 				}
 			}
